@@ -93,6 +93,12 @@ type Op struct {
 	// RO: the session issuing this command has its mailbox selected read-only. On a select op: use EXAMINE. On a body
 	// fetch: rendered as CFetchBodyRO (nothing is marked \Seen). On store/expunge/copy/move: refused like CSearchBad.
 	RO bool `json:"ro,omitempty"`
+	// ByUID: send the UID form of the command (UID STORE / UID FETCH / UID COPY / UID MOVE / UID SEARCH); UIDs holds the
+	// UIDs the client has learnt for the positions Ps (filled in by the generator's exec from the client mirror; when
+	// one is unknown, or the mirror is known not to be the session's view, the sequence-number form is used instead).
+	// The model runs the same command on the positions: C05_uid_forms_flush_alike.
+	ByUID bool  `json:"byuid,omitempty"`
+	UIDs  []int `json:"uids,omitempty"`
 }
 
 func natList(xs []int) string {
@@ -173,6 +179,21 @@ func (o Op) Coq() string {
 	return "Deliver 0"
 }
 
+func (o Op) uidPrefix() string {
+	if o.ByUID {
+		return "UID "
+	}
+	return ""
+}
+
+// set: the message set of the command: positions, or the UIDs learnt for them
+func (o Op) set() []int {
+	if o.ByUID {
+		return o.UIDs
+	}
+	return o.Ps
+}
+
 func (o Op) String() string {
 	switch o.Kind {
 	case "deliver":
@@ -190,6 +211,9 @@ func (o Op) String() string {
 		}
 	}
 	s := fmt.Sprintf("S%d:%s", o.S, o.Cmd)
+	if o.ByUID {
+		s = fmt.Sprintf("S%d:uid-%s%v", o.S, o.Cmd, o.UIDs)
+	}
 	switch o.Cmd {
 	case "select":
 		s += fmt.Sprintf(" m%d", o.Mb)
@@ -432,22 +456,22 @@ func (w *World) Do(o Op) (StepObs, error) {
 		if o.Silent {
 			item += ".SILENT"
 		}
-		r, err = c.Cmd(fmt.Sprintf("STORE %s %s (%s)", psString(o.Ps), item, flagString(o.Flags)))
+		r, err = c.Cmd(fmt.Sprintf("%sSTORE %s %s (%s)", o.uidPrefix(), psString(o.set()), item, flagString(o.Flags)))
 	case "expunge":
 		r, err = c.Cmd("EXPUNGE")
 	case "copy":
-		r, err = c.Cmd(fmt.Sprintf("COPY %s m%d", psString(o.Ps), o.Mb))
+		r, err = c.Cmd(fmt.Sprintf("%sCOPY %s m%d", o.uidPrefix(), psString(o.set()), o.Mb))
 	case "move":
-		r, err = c.Cmd(fmt.Sprintf("MOVE %s m%d", psString(o.Ps), o.Mb))
+		r, err = c.Cmd(fmt.Sprintf("%sMOVE %s m%d", o.uidPrefix(), psString(o.set()), o.Mb))
 	case "fetchbody":
-		r, err = c.Cmd(fmt.Sprintf("FETCH %s (BODY[])", psString(o.Ps)))
+		r, err = c.Cmd(fmt.Sprintf("%sFETCH %s (BODY[])", o.uidPrefix(), psString(o.set())))
 	case "fetchflagsbody":
-		r, err = c.Cmd(fmt.Sprintf("FETCH %s (FLAGS BODY[])", psString(o.Ps)))
+		r, err = c.Cmd(fmt.Sprintf("%sFETCH %s (FLAGS BODY[])", o.uidPrefix(), psString(o.set())))
 	case "probe":
 		probe = true
 		r, err = c.Cmd("UID FETCH 1:* (FLAGS)")
 	case "search":
-		r, err = c.Cmd("SEARCH ALL")
+		r, err = c.Cmd(o.uidPrefix() + "SEARCH ALL")
 	case "searchbad":
 		r, err = c.Cmd("SEARCH CHARSET X-UNKNOWN-CHARSET ALL")
 	case "fetchbadpart":
